@@ -4,6 +4,7 @@
   Per line class a render∘read law, quantified over ALL token lists / ALL rational values / ALL tables:
     F1  split_chunks, split_join, default_render_tokens, split_kw_join      tokens of blank-separated text
     F2  fmtFixed_parse, fmtFixed_close, atom_render_close_{aniso,iso}       numbers printed with nd places (nd from atom.py)
+        coord_code_kept, coords_codes_kept                                  free-variable codes of coordinates, per slot
         qpeak_render_partial + QpeakStatement + qpeak_fails_on              open finding (Q-peak U / precision)
     F3  sfac_render_table (+ sfac_old_printer_fails_on: the defect repaired by fixes/C01_1)
     F4  fvar_render_list, unit_render, size_render, acta_render, stir_render, wght_render, symm_render
@@ -500,6 +501,19 @@ theorem atom_render_close_iso (name : Tok) (sfac : Nat) (x y z sof u : Rat) (res
   have c6 : (1 : Rat) / (2 * (10 : Rat) ^ 6) ≤ tolCoord := by norm_num [tolCoord]
   have c5 : (1 : Rat) / (2 * (10 : Rat) ^ 5) ≤ tolU := by norm_num [tolU]
   simp [isoFmt, fieldTexts, fieldText, specAtomLine, closeAll, numClose_nat, numClose_fixed _ _ _ c6, numClose_fixed _ _ _ c5]
+
+/-- **coord_code_kept** (repaired printer): a coordinate keeps its free-variable code, in its own slot — for every
+    value, coded (|c| > 4, any m) or not -/
+theorem coord_code_kept (c : Rat) : coordJoin (coordSplit c) = c := by
+  unfold coordJoin coordSplit
+  split_ifs <;> simp
+
+theorem coords_codes_kept (xyz : List Rat) : (xyz.map coordSplit).map coordJoin = xyz := by
+  induction xyz with
+  | nil => rfl
+  | cons c cs ih => simp [coord_code_kept, ih]
+
+example : (coordSplit (-2025 / 100)).1 = -2 ∧ (coordSplit (-2025 / 100)).2 = -1 / 4 := by decide +kernel
 
 /-- the hypotheses of the atom theorems as one executable test -/
 def sepOK (fmt : List Piece) (vals : List Val) : Bool :=
